@@ -20,6 +20,19 @@ STATS = ["mean", "max", "min", "sum", "std", "var", "count"]
 EXACT_STATS = ("max", "min", "count")
 
 
+def source_facts():
+    """the structural facts the translator read from /repo on this run (Gen/report.json); used only to
+    *name* a finding: a defect whose repair is present in the source is not a candidate explanation"""
+    import json
+    import os
+    from common import LEAN
+    try:
+        rep = json.load(open(os.path.join(LEAN, "XrsVerif", "Gen", "report.json")))
+        return rep.get("facts:Zonal.lean", {})
+    except (OSError, ValueError):
+        return {}
+
+
 # ---------------------------------------------------------------- arrays <-> tokens
 def arr_of(tokens, dtype, shape):
     a = np.array([untok(t) for t in tokens], dtype=np.float64)
